@@ -408,6 +408,12 @@ template <class O> static void check_range(const AddressRange<typename O::A>& r,
     sig(mix(mix((u64)first, (u64)(first >> 64)), mix((u64)last ^ (u64)(last >> 64), hosts)));
 }
 
+// building a range from valid arguments must not fail
+template <class O, class F> static bool guarded(const std::string& site, const std::string& what, F body) {
+    try { body(); return true; }
+    catch (...) { violation(std::string("range-ctor/") + O::nm() + "/" + site + "/valid-rejected", what + " throws " + current_exception_type()); return false; }
+}
+
 static u128 top_table(Rng& r, unsigned W) { u128 mx = maxv(W); u32 k = r.below(12); return k < 6 ? mx - k : (u128)(k - 6); }
 
 template <class O> static void case_prefix(Rng& rng) {
@@ -418,9 +424,9 @@ template <class O> static void case_prefix(Rng& rng) {
         u128 m = p == 0 ? 0 : ((mx << (W - p)) & mx);
         if (O::has_mask_fn()) { u128 got = O::val(O::prefix_mask(p)); if (got != m) violation("prefix-mask/" + nm, "from_prefix_length(" + std::to_string(p) + ") = " + hx(got, W) + ", expected " + hx(m, W)); cnt("chk:prefix-mask"); }
         u128 first = a & m, last = a | (~m & mx);
-        AddressRange<A> r = addr / (int)p;
         bool walk = (W - p) <= 16 && ((W - p) <= 11 || rng.chance(1, 5));
-        check_range<O>(r, first, last, true, "prefix", rng, walk, O::canon(a) + "/" + std::to_string(p));
+        const std::string what = O::canon(a) + "/" + std::to_string(p);
+        guarded<O>("prefix", what, [&]() { AddressRange<A> r = addr / (int)p; check_range<O>(r, first, last, true, "prefix", rng, walk, what); });
         cnt("ranges:prefix");
     }
     cnt(std::string("prefix-sweeps:") + nm);
@@ -441,9 +447,9 @@ template <class O> static void case_mask(Rng& rng) {
         }
         u128 first = a & m, last = a | (~m & mx);
         describe_case(nm + " from_mask a=" + hx(a, W) + " m=" + hx(m, W));
-        AddressRange<A> r = AddressRange<A>::from_mask(O::make(a), O::make(m));
         bool contiguous = ((~m & mx) & ((~m & mx) + 1)) == 0;
-        check_range<O>(r, first, last, true, contiguous ? "mask" : "mask-noncontiguous", rng, true, "from_mask(" + O::canon(a) + ", " + O::canon(m) + ")");
+        const std::string what = "from_mask(" + O::canon(a) + ", " + O::canon(m) + ")", site = contiguous ? "mask" : "mask-noncontiguous";
+        guarded<O>(site, what, [&]() { AddressRange<A> r = AddressRange<A>::from_mask(O::make(a), O::make(m)); check_range<O>(r, first, last, true, site, rng, true, what); });
         cnt(std::string("ranges:mask:") + style); if (!contiguous) cnt("ranges:mask-noncontiguous");
     }
 }
@@ -466,16 +472,16 @@ template <class O> static void case_explicit(Rng& rng) {
         if (first > mx - (n - 1)) first = mx - (n - 1);
         u128 last = first + (n - 1); bool hosts = rng.chance(1, 3);
         describe_case(nm + " explicit [" + hx(first, W) + "," + hx(last, W) + "] hosts=" + (hosts ? "1" : "0"));
-        AddressRange<A> r(O::make(first), O::make(last), hosts);
-        check_range<O>(r, first, last, hosts, hosts ? "explicit-hosts" : "explicit", rng, true, std::string("AddressRange(") + O::canon(first) + ", " + O::canon(last) + (hosts ? ", true)" : ")"));
+        const std::string what = std::string("AddressRange(") + O::canon(first) + ", " + O::canon(last) + (hosts ? ", true)" : ")"), site = hosts ? "explicit-hosts" : "explicit";
+        guarded<O>(site, what, [&]() { AddressRange<A> r(O::make(first), O::make(last), hosts); check_range<O>(r, first, last, hosts, site, rng, true, what); });
         cnt("ranges:explicit");
     }
     {   // arbitrary (mostly huge) range: membership, is_iterable, first step
         u128 x = gen_val(rng, W), y = gen_val(rng, W); if (rng.chance(1, 8)) { x = 0; y = mx; } if (x > y) std::swap(x, y);
         bool hosts = rng.chance(1, 3);
         describe_case(nm + " explicit-big [" + hx(x, W) + "," + hx(y, W) + "] hosts=" + (hosts ? "1" : "0"));
-        AddressRange<A> r(O::make(x), O::make(y), hosts);
-        check_range<O>(r, x, y, hosts, hosts ? "explicit-hosts" : "explicit", rng, y - x < 65536, std::string("AddressRange(") + O::canon(x) + ", " + O::canon(y) + (hosts ? ", true)" : ")"));
+        const std::string what = std::string("AddressRange(") + O::canon(x) + ", " + O::canon(y) + (hosts ? ", true)" : ")"), site = hosts ? "explicit-hosts" : "explicit";
+        guarded<O>(site, what, [&]() { AddressRange<A> r(O::make(x), O::make(y), hosts); check_range<O>(r, x, y, hosts, site, rng, y - x < 65536, what); });
         cnt("ranges:explicit-big");
         if (x != y) {   // documented: last < first is an error
             bool thrown = false; try { AddressRange<A> inv(O::make(y), O::make(x)); (void)inv; } catch (const std::exception&) { thrown = true; }
